@@ -14,7 +14,7 @@ rep = {}
 try: rep = json.load(open("/tmp/seedchk-%s.replay.json" % pid))
 except Exception: pass
 rcs = re.findall(r"rc=(\d+)", out)
-m["breaks_property"] = pid
+m["breaks_property"] = pid[:3]
 m["confirmed_by_integrator"] = {
   "procedure": "seedtest.sh: scratch worktree of /repo main; demo run without and with patch.diff; package tests with the patch; ./check run against the patched tree",
   "demo_without_patch_rc": rcs[0] if rcs else None, "demo_with_patch_rc": rcs[1] if len(rcs) > 1 else None,
